@@ -55,10 +55,6 @@ def check_scatter(prog, rep, m):
     if f is None:
         return
     init = False
-    for n in f.own_nodes():
-        if isinstance(n, ast.Assign) and isinstance(n.value, ast.Call) and norm(n.value.func) in ('np.full', 'numpy.full') and \
-                len(n.value.args) == 2 and norm(n.value.args[1]) in ('np.nan', 'numpy.nan'):
-            init = True
     # the permutation and the break vector: first and last component of what the sort-and-stride routine returns
     P = B = None
     for n in f.own_nodes():
@@ -80,7 +76,17 @@ def check_scatter(prog, rep, m):
     site = 'raster output: cells of a zone = %s[%s[J-1]:%s[J]]' % (P, B, B)
     if len(loops) == 1:
         lp = loops[0]
-        from ..astutil import parent_map
+        from ..astutil import nan_initialised, parent_map
+        # the raster the loop scatters into holds NaN everywhere beforehand
+        tg = set()
+        for x in ast.walk(lp):
+            if isinstance(x, ast.Subscript) and isinstance(x.ctx, ast.Store):
+                b_ = x.value
+                while isinstance(b_, ast.Subscript):
+                    b_ = b_.value
+                if isinstance(b_, ast.Name):
+                    tg.add(b_.id)
+        init = bool(tg) and all(nan_initialised(f.node, t_) for t_ in tg)
         pm = parent_map(f.node)
 
         def prepare():
